@@ -63,6 +63,23 @@ func ExtractMatrices(M tensor.Tensor, nMatrices, nDimensions, hiddenSize int) ([
 	return matrices, nil
 }
 
+// ExtractTimestep returns the input of timestep t as a matrix of shape (batch_size, input_size).
+// X is assumed to have shape (seq_length, batch_size, input_size). Slicing drops the sequence
+// dimension, and returns a scalar when batch_size * input_size is 1, so the shape is restored.
+func ExtractTimestep(X tensor.Tensor, t int) (tensor.Tensor, error) {
+	view, err := X.Slice(NewSlicer(t, t+1), nil, nil)
+	if err != nil {
+		return nil, err
+	}
+
+	Xt := view.Materialize()
+	if err := Xt.Reshape(X.Shape()[1], X.Shape()[2]); err != nil {
+		return nil, err
+	}
+
+	return Xt, nil
+}
+
 // ZeroTensor returns a tensor filled with zeros with the given shape.
 func ZeroTensor(shape ...int) tensor.Tensor {
 	return tensor.New(
